@@ -8,7 +8,9 @@ def tokens (line : String) : List String :=
   (line.trimAscii.toString.splitOn " ").filter (· ≠ "")
 
 def floatOfTok (t : String) : Option Float :=
-  t.toNat?.map (fun n => Float.ofBits n.toUInt64)
+  -- `nan` (what `floatOut` / the harness's `fbits` print for every NaN) reads as the quiet NaN
+  if t == "nan" then some (Float.ofBits 0x7ff8000000000000)
+  else t.toNat?.map (fun n => Float.ofBits n.toUInt64)
 
 /-- canonical text of a double: its bit pattern; every NaN is `nan` -/
 def floatOut (x : Float) : String :=
